@@ -101,12 +101,13 @@ def confirm(sid, wt):
     return 0
 
 
-def import_(pid):
+def import_(pid, rnd=1):
     """copy /tmp/seed/<pid>-out/{A,B,...} to seeded/<pid>a,b..., confirm each in /tmp/seed/<pid>, record the outcome."""
     import shutil, io, contextlib
     wt = f"/tmp/seed/{pid}"
-    for sub in sorted(os.listdir(f"{wt}-out")):
-        srcd = os.path.join(f"{wt}-out", sub)
+    outd = f"{wt}-out" if rnd == 1 else f"{wt}-out{rnd}"
+    for sub in sorted(os.listdir(outd)):
+        srcd = os.path.join(outd, sub)
         if not (os.path.isdir(srcd) and os.path.isfile(os.path.join(srcd, "patch.diff"))):
             continue
         sid = f"{pid}{sub.lower()}"
@@ -149,8 +150,9 @@ def import_(pid):
 if __name__ == "__main__":
     a = sys.argv[1:]
     if a and a[0] == "import":
-        for pid in a[1:]:
-            import_(pid)
+        rnd = int(a[a.index("--round") + 1]) if "--round" in a else 1
+        for pid in [x for x in a[1:] if x.startswith("C")]:
+            import_(pid, rnd)
         sys.exit(0)
     if a and a[0] == "detect":
         allc = "--all-checks" in a
